@@ -1,6 +1,424 @@
 package c07
 
-import "verif/harness/monitor"
+import (
+	"fmt"
+	"math/rand"
+	"sort"
+	"strings"
+	"time"
 
-// RunWire is part (b) of C07 (wire level); filled in once the wire client exists.
-func RunWire(r *monitor.Run) {}
+	"github.com/DrmagicE/gmqtt"
+
+	"verif/harness/broker"
+	"verif/harness/monitor"
+	"verif/harness/mqttx"
+	"verif/harness/refmodel"
+	"verif/harness/wire"
+)
+
+// PubOp is one retained publish / clear.
+type PubOp struct {
+	Pub    int // publisher index
+	Topic  string
+	Clear  bool
+	QoS    byte
+	Rich   bool
+	Alias  bool // v5: send through a topic alias (bind first if needed)
+	Normal bool // RETAIN=0 publish (must not touch the store)
+}
+
+// SubOp is one subscribe / unsubscribe of a subscriber.
+type SubOp struct {
+	Client int
+	Unsub  bool
+	Filter string // plain filter
+	Share  string // "" or group
+	QoS    byte
+	RH     byte
+	RAP    bool
+}
+
+// WScenario is one wire scenario: phases alternate publishes and subscriptions.
+type WScenario struct {
+	PubV   []byte // versions of publishers
+	SubV   []byte // versions of subscribers
+	Phases []Phase
+}
+
+type Phase struct {
+	Pubs []PubOp
+	Subs []SubOp
+}
+
+type stored struct {
+	Payload string
+	QoS     byte
+	Rich    bool
+	V5      bool
+}
+
+func genW(rng *rand.Rand, size int) WScenario {
+	sc := WScenario{}
+	for i := 0; i < 1+rng.Intn(2); i++ {
+		sc.PubV = append(sc.PubV, []byte{4, 5, 5}[rng.Intn(3)])
+	}
+	for i := 0; i < 1+rng.Intn(3); i++ {
+		sc.SubV = append(sc.SubV, []byte{4, 5, 5, 3}[rng.Intn(4)])
+	}
+	lv := []string{"a", "b", "", "$s"}
+	all := names(lv, 3)
+	topics := make([]string, 3+rng.Intn(4))
+	for i := range topics {
+		topics[i] = all[rng.Intn(len(all))]
+	}
+	allF := filtersOf(lv, 3)
+	var filters []string
+	for len(filters) < 8 {
+		f := allF[rng.Intn(len(allF))]
+		for _, t := range topics {
+			if refmodel.Match(t, f) || rng.Intn(8) == 0 {
+				filters = append(filters, f)
+				break
+			}
+		}
+	}
+	for ph := 0; ph < 2+rng.Intn(2); ph++ {
+		var p Phase
+		for i := 0; i < 1+rng.Intn(size); i++ {
+			pi := rng.Intn(len(sc.PubV))
+			o := PubOp{Pub: pi, Topic: topics[rng.Intn(len(topics))], QoS: byte(rng.Intn(3)), Rich: rng.Intn(3) == 0}
+			switch x := rng.Intn(10); {
+			case x < 2:
+				o.Clear = true
+			case x < 3:
+				o.Normal = true
+			}
+			if sc.PubV[pi] == 5 {
+				o.Alias = rng.Intn(3) == 0
+			} else {
+				o.Rich = false
+			}
+			p.Pubs = append(p.Pubs, o)
+		}
+		for i := 0; i < 1+rng.Intn(size); i++ {
+			ci := rng.Intn(len(sc.SubV))
+			o := SubOp{Client: ci, Filter: filters[rng.Intn(len(filters))], QoS: byte(rng.Intn(3))}
+			if sc.SubV[ci] == 5 {
+				o.RH = byte(rng.Intn(3))
+				o.RAP = rng.Intn(2) == 0
+				if rng.Intn(6) == 0 {
+					o.Share = "g"
+				}
+			}
+			if rng.Intn(6) == 0 {
+				o.Unsub = true
+			}
+			p.Subs = append(p.Subs, o)
+		}
+		sc.Phases = append(sc.Phases, p)
+	}
+	return sc
+}
+
+type wfinding struct{ Sig, What string }
+
+const wstep = 15 * time.Second
+
+func runW(sc *WScenario) (fs []wfinding, obs map[string]int, rerr error) {
+	obs = map[string]int{}
+	add := func(sig, what string) { fs = append(fs, wfinding{sig, what}) }
+	b, err := broker.Start(broker.Options{})
+	if err != nil {
+		return nil, nil, err
+	}
+	defer b.Stop(10 * time.Second)
+	pubs := make([]*wire.Client, len(sc.PubV))
+	aliases := make([]map[string]uint16, len(sc.PubV))
+	for i, v := range sc.PubV {
+		c, err := wire.Dial(fmt.Sprintf("pub%d", i), b.Addr, mqttx.Version(v))
+		if err != nil {
+			return nil, nil, err
+		}
+		defer c.Close()
+		if _, err := c.Connect(&mqttx.Packet{ClientID: fmt.Sprintf("pub%d", i), CleanStart: true}, wstep); err != nil {
+			return nil, nil, err
+		}
+		pubs[i] = c
+		aliases[i] = map[string]uint16{}
+	}
+	subs := make([]*wire.Client, len(sc.SubV))
+	pos := make([]int, len(sc.SubV)) // consumed PUBLISH records per subscriber
+	for i, v := range sc.SubV {
+		c, err := wire.Dial(fmt.Sprintf("sub%d", i), b.Addr, mqttx.Version(v))
+		if err != nil {
+			return nil, nil, err
+		}
+		defer c.Close()
+		if _, err := c.Connect(&mqttx.Packet{ClientID: fmt.Sprintf("sub%d", i), CleanStart: true}, wstep); err != nil {
+			return nil, nil, err
+		}
+		if _, err := c.Subscribe([]mqttx.Sub{{Filter: fmt.Sprintf("sent/sub%d", i), QoS: 1}}, 0, wstep); err != nil {
+			return nil, nil, err
+		}
+		subs[i] = c
+	}
+	model := map[string]stored{}
+	live := make([]map[string]bool, len(sc.SubV)) // existing subscriptions (full filter) per subscriber
+	for i := range live {
+		live[i] = map[string]bool{}
+	}
+	seq := 0
+	sentinelN := 0
+	// sentinel returns the PUBLISH packets the subscriber received since the last call, up to the sentinel.
+	sentinel := func(ci int) ([]*mqttx.Packet, bool) {
+		sentinelN++
+		pl := fmt.Sprintf("sentinel-%d", sentinelN)
+		b.Srv.Publisher().Publish(&gmqtt.Message{Topic: fmt.Sprintf("sent/sub%d", ci), Payload: []byte(pl), QoS: 1})
+		idx, err := subs[ci].WaitPublish(pos[ci], func(p *mqttx.Packet) bool { return string(p.Payload) == pl }, wstep)
+		if err != nil {
+			add("sentinel.missing", fmt.Sprintf("sub%d never received %s: %v", ci, pl, err))
+			return nil, false
+		}
+		recs := subs[ci].Publishes()
+		var out []*mqttx.Packet
+		for _, r := range recs[pos[ci]:idx] {
+			out = append(out, r.P)
+		}
+		pos[ci] = idx + 1
+		return out, true
+	}
+	for phi, ph := range sc.Phases {
+		for _, o := range ph.Pubs {
+			c := pubs[o.Pub]
+			seq++
+			payload := fmt.Sprintf("r%d", seq)
+			if o.Clear {
+				payload = ""
+			}
+			p := &mqttx.Packet{Topic: o.Topic, QoS: o.QoS, Retain: !o.Normal, Payload: []byte(payload)}
+			v5 := c.V == mqttx.V5
+			if v5 {
+				p.Props = &mqttx.Props{}
+				if o.Rich && !o.Clear {
+					ct, rt := "ct/"+payload, "rt/"+payload
+					pf := byte(1)
+					p.Props.ContentType, p.Props.ResponseTopic, p.Props.PayloadFormat = &ct, &rt, &pf
+					p.Props.CorrelationData, p.Props.HasCorrelationData = []byte("cd"+payload), true
+					p.Props.User = []mqttx.UserProp{{K: "k", V: payload}}
+				}
+				if o.Alias {
+					a, ok := aliases[o.Pub][o.Topic]
+					if !ok {
+						a = uint16(len(aliases[o.Pub]) + 1)
+						if a <= 9 { // broker advertises 10; stay strictly below to avoid the alias==max defect (C13's business)
+							aliases[o.Pub][o.Topic] = a
+							p.Props.TopicAlias = &a // first use: alias + topic
+						}
+					} else {
+						p.Props.TopicAlias = &a
+						p.Topic = "" // alias only
+						obs["publishes_via_alias_only"]++
+					}
+				}
+			}
+			if _, err := c.Publish(p, wstep); err != nil {
+				add("publisher.ack", fmt.Sprintf("publisher %d %v: %v (ctl=%v)", o.Pub, p.String(), err, c.Ctl()))
+				return
+			}
+			if o.QoS == 0 {
+				// no ack for QoS 0: order it before the next publisher's packet with a barrier
+				if err := c.Ping(wstep); err != nil {
+					add("publisher.barrier", err.Error())
+					return
+				}
+			}
+			if o.Normal {
+				continue
+			}
+			if o.Clear {
+				delete(model, o.Topic)
+				obs["clears"]++
+			} else {
+				model[o.Topic] = stored{Payload: payload, QoS: o.QoS, Rich: o.Rich && v5, V5: v5}
+				obs["retained_publishes"]++
+			}
+		}
+		for _, c := range pubs {
+			if err := c.Ping(wstep); err != nil {
+				add("publisher.barrier", err.Error())
+				return
+			}
+		}
+		// the broker's retained store must equal the model
+		got := map[string]string{}
+		b.Srv.RetainedService().Iterate(func(m *gmqtt.Message) bool {
+			got[m.Topic] = fmt.Sprintf("%s q%d", m.Payload, m.QoS)
+			return true
+		})
+		want := map[string]string{}
+		for t, s := range model {
+			want[t] = fmt.Sprintf("%s q%d", s.Payload, s.QoS)
+		}
+		if fmt.Sprint(got) != fmt.Sprint(want) {
+			viaAlias := false
+			for _, o := range ph.Pubs {
+				if o.Alias && o.Clear {
+					viaAlias = true
+				}
+			}
+			add(fmt.Sprintf("service.contents:clear_via_alias=%v", viaAlias), fmt.Sprintf("phase %d: RetainedService holds %v, model %v", phi, got, want))
+			// adopt the broker's state to keep checking the replay rules
+			for t := range model {
+				if _, ok := got[t]; !ok {
+					delete(model, t)
+				}
+			}
+			b.Srv.RetainedService().Iterate(func(m *gmqtt.Message) bool {
+				if s, ok := model[m.Topic]; !ok || s.Payload != string(m.Payload) {
+					model[m.Topic] = stored{Payload: string(m.Payload), QoS: m.QoS, Rich: m.ContentType != "", V5: true}
+				}
+				return true
+			})
+		}
+		// live deliveries of this phase are C01's business: discard them up to a sentinel
+		for ci := range subs {
+			if _, ok := sentinel(ci); !ok {
+				return
+			}
+		}
+		for _, o := range ph.Subs {
+			c := subs[o.Client]
+			full := o.Filter
+			if o.Share != "" {
+				full = "$share/" + o.Share + "/" + o.Filter
+			}
+			if o.Unsub {
+				if _, err := c.Unsubscribe([]string{full}, wstep); err != nil {
+					add("unsuback", err.Error())
+					return
+				}
+				delete(live[o.Client], full)
+				continue
+			}
+			sa, err := c.Subscribe([]mqttx.Sub{{Filter: full, QoS: o.QoS, RAP: o.RAP, RetainHandling: o.RH}}, 0, wstep)
+			if err != nil || len(sa.Codes) != 1 || sa.Codes[0] != o.QoS {
+				add("suback", fmt.Sprintf("subscribe %s: %v %v", full, sa, err))
+				return
+			}
+			existed := live[o.Client][full]
+			live[o.Client][full] = true
+			recv, ok := sentinel(o.Client)
+			if !ok {
+				return
+			}
+			v5 := c.V == mqttx.V5
+			replay := o.Share == "" && (!v5 || o.RH == 0 || (o.RH == 1 && !existed))
+			wantSet := map[string]stored{}
+			if replay {
+				for t, s := range model {
+					if refmodel.Match(t, o.Filter) {
+						wantSet[t] = s
+					}
+				}
+			}
+			obs["subscribes_checked"]++
+			if len(wantSet) > 0 {
+				obs["subscribes_with_replay"]++
+			}
+			kind := fmt.Sprintf("v=%d:rh=%d:shared=%v:existed=%v", c.V, o.RH, o.Share != "", existed)
+			seen := map[string]int{}
+			for _, p := range recv {
+				if strings.HasPrefix(p.Topic, "sent/") {
+					continue // another subscriber's sentinel seen through a wildcard subscription
+				}
+				// other live subscriptions of this client cannot produce traffic here: nothing is published during the subscribe phase
+				s, ok := wantSet[p.Topic]
+				seen[p.Topic]++
+				if !ok {
+					add("replay.unexpected:"+kind, fmt.Sprintf("sub%d subscribing %s received %s which must not be replayed", o.Client, full, p.String()))
+					continue
+				}
+				if string(p.Payload) != s.Payload {
+					add("replay.stale_payload", fmt.Sprintf("topic %s replayed with payload %q, last retained value is %q", p.Topic, p.Payload, s.Payload))
+				}
+				wq := s.QoS
+				if o.QoS < wq {
+					wq = o.QoS
+				}
+				if p.QoS != wq {
+					add(fmt.Sprintf("replay.qos:got=%d:want=%d", p.QoS, wq), fmt.Sprintf("topic %s stored QoS %d granted %d replayed with QoS %d", p.Topic, s.QoS, o.QoS, p.QoS))
+				}
+				if !p.Retain {
+					add(fmt.Sprintf("replay.retain_flag:got=0:want=1:rap=%d:v5=%v", b2i(o.RAP), v5), fmt.Sprintf("retained message on %s replayed to %s with RETAIN=0 (RAP=%v)", p.Topic, full, o.RAP))
+				}
+				if p.Dup {
+					add("replay.dup", "replayed message has DUP=1")
+				}
+				if v5 {
+					pp := p.Props
+					if pp == nil {
+						pp = &mqttx.Props{}
+					}
+					has := pp.ContentType != nil || pp.ResponseTopic != nil || pp.HasCorrelationData || len(pp.User) > 0 || pp.PayloadFormat != nil
+					if s.Rich {
+						if pp.ContentType == nil || *pp.ContentType != "ct/"+s.Payload || pp.ResponseTopic == nil || *pp.ResponseTopic != "rt/"+s.Payload ||
+							string(pp.CorrelationData) != "cd"+s.Payload || len(pp.User) != 1 || pp.User[0].V != s.Payload || pp.PayloadFormat == nil {
+							add("replay.props", fmt.Sprintf("topic %s replayed with properties %s", p.Topic, pp.String()))
+						}
+					} else if has {
+						add("replay.props_invented", fmt.Sprintf("topic %s replayed with properties %s", p.Topic, pp.String()))
+					}
+				}
+			}
+			for t := range wantSet {
+				if seen[t] == 0 {
+					add("replay.missing:"+kind, fmt.Sprintf("sub%d subscribing %s (qos %d rh %d) did not get the retained message of %s", o.Client, full, o.QoS, o.RH, t))
+				} else if seen[t] > 1 {
+					add("replay.twice", fmt.Sprintf("retained message of %s replayed %d times for one SUBSCRIBE", t, seen[t]))
+				}
+			}
+		}
+	}
+	return
+}
+
+func b2i(b bool) int {
+	if b {
+		return 1
+	}
+	return 0
+}
+
+// RunWire is part (b) of C07.
+func RunWire(r *monitor.Run) {
+	n := r.Pick(120, 2500)
+	rng := r.Rand("wire")
+	scs := make([]WScenario, n)
+	for i := range scs {
+		scs[i] = genW(rng, r.Pick(6, 10))
+	}
+	r.Parallel(n, 16, func(i int) {
+		sc := &scs[i]
+		fs, obs, err := runW(sc)
+		r.Eval(1)
+		if err != nil {
+			r.Inconclusive(fmt.Sprintf("wire scenario %d: %v", i, err))
+			return
+		}
+		for _, f := range fs {
+			r.Violation(f.Sig, f.What, map[string]any{"scenario": sc, "index": i})
+		}
+		for k, v := range obs {
+			r.Count("wire_"+k, int64(v))
+		}
+		if obs["subscribes_with_replay"] > 0 {
+			r.Nontrivial("wire|" + monitor.J(sc))
+		}
+		r.Count("wire_scenarios", 1)
+		if i == 0 {
+			r.Sample(map[string]any{"wire_scenario": sc})
+		}
+	})
+	_ = sort.Strings
+	_ = strings.Join
+}
